@@ -140,6 +140,17 @@ func (c *Ctx) poolRule() {
 	}
 }
 
+// byteClasses: label-character predicates of printer and scanner against PHP's definition.
+func (c *Ctx) byteClasses() {
+	c.Fixture("mini", "byte-class", false, func(p *load.Program, tb *kinds.Table) *report.RuleResult {
+		return small.ByteClasses(p, small.LabelPredicate("pkg/byteclass", "good", false), small.LabelPredicate("pkg/byteclass", "goodStart", true),
+			small.LabelPredicate("pkg/byteclass", "noDigits", false), small.LabelPredicate("pkg/byteclass", "viaUnicode", false))
+	})
+	if p, _, ok := c.RepoProgram(false); ok {
+		c.Add(small.ByteClasses(p, small.LabelPredicates()...))
+	}
+}
+
 func (c *Ctx) builderEnds() {
 	c.Fixture("mini", "builder-ends", false, func(p *load.Program, tb *kinds.Table) *report.RuleResult {
 		r := small.BuilderEnds(p, "internal/position")
@@ -229,6 +240,7 @@ func init() {
 			c.poolRule()
 			c.scanRun("token-rules")
 			c.ssaScan("pred-pure")
+			c.byteClasses()
 			c.visitorRule("print-slots", visitors.PrintSlots)
 			if p, tb, ok := c.RepoProgram(false); ok {
 				c.Add(visitors.PrintHelpers(p, tb))
